@@ -66,6 +66,10 @@ def run(facts, rep, tier, ctx):
         if o["rule"] == "M":
             rep.ob("R11.8", o["fn"], o["key"].split("|")[2], o["ok"], o["detail"], o["loc"])
     c10.marker_rules(facts, rep, ws, prefix="R11.8", only=("R10.1", "R10.5", "R10.3"))
+    # remove_dir_all / move_dir on an overlay succeed only while the markers they write are the ones read_dir subtracts: both
+    # sides build the marker path relative to the write layer
+    from . import c09 as _c09
+    _c09.relative_join_rules(facts, rep, ws, rule="R11.9")
     # the async path type carries its own copy of every composite
     wa = World(facts, True)
     rep.ob("R11.A", "async_vfs", "async world present", wa.present(), "", "")
@@ -75,6 +79,7 @@ def run(facts, rep, tier, ctx):
         k = pra.table_p(A, "R11.1") + pra.fast_paths(A, "R11.2") + pra.generic_routes(A, "R11.3") + \
             pra.copy_dir_count(A, "R11.4") + pra.create_dir_all(A, "R11.5")
         _c05.walk_rules(facts, _c05._P5(A, "R11.6"), wa, D)
+        _c09.relative_join_rules(facts, A, wa, rule="R11.9")
         scratch = Report("xa")
         c20.run_world(facts, scratch, wa, {"results": 0, "err_edges": 0, "kind_arms": 0})
         for o in scratch.obligations:
